@@ -858,10 +858,17 @@ def families():
 
 
 def emit_registry(fam):
-    # group by (set of properties, thorough?) so that a build for one property and tier
-    # compiles only the harnesses it can run (cargo features c01..c18, thorough)
+    # quick-tier harnesses: grouped by set of properties (cargo features c01..c18) so that a build for
+    # one property compiles only its own harnesses; thorough-tier ones additionally need feature
+    # "thorough"; the seed-rotated pool ("rotate") is compiled only when selected for this run:
+    # harness/build.rs reads VERIF_SELECT (names, or ALL) and emits the chosen entries.
     groups = {}
+    rotate = []
     for f in fam:
+        if f['tier'] == 'rotate':
+            rotate.append(f)
+            f['path'] = 'registry::gen::sel::proofs::'
+            continue
         key = (tuple(sorted(f['props'])), f['tier'] == 'thorough')
         groups.setdefault(key, []).append(f)
     out = ["// @generated by gen/skeletons.py - do not edit\n"]
@@ -878,6 +885,8 @@ def emit_registry(fam):
             out.append("        #[kani::unwind(%d)] %s => %s;\n" % (f['unwind'], f['name'], f['body']))
             f['path'] = 'registry::gen::%s::proofs::' % mod
         out.append("    }\n}\n")
+    out.append("pub mod sel {\n    use super::*;\n    include!(concat!(env!(\"OUT_DIR\"), \"/selected.rs\"));\n}\n")
+    mods.append(("sel", "all()"))
     out.append("pub fn lookup(name: &str) -> Option<Body> {\n")
     for mod, cfg in mods:
         out.append("    #[cfg(%s)]\n    if let Some(b) = %s::lookup(name) { return Some(b); }\n" % (cfg, mod))
@@ -889,6 +898,9 @@ def emit_registry(fam):
         out.append("    #[cfg(%s)]\n    v.extend_from_slice(%s::NAMES);\n" % (cfg, mod))
     out.append("    v\n}\n")
     open(os.path.join(VERIF, "harness/src/registry_gen.rs"), "w").write("".join(out))
+    with open(os.path.join(VERIF, "harness/rotate_table.txt"), "w") as fh:
+        for f in rotate:
+            fh.write("%s|%d|%s\n" % (f['name'], f['unwind'], f['body']))
     js = {f['name']: {k: v for k, v in f.items() if k not in ('name', 'body')} for f in fam}
     json.dump(js, open(os.path.join(VERIF, "bin/harness_gen.json"), "w"), indent=1, sort_keys=True)
 
